@@ -239,6 +239,12 @@ def r02_3(prog, out):
             if not e.cells or e.root[0] not in ("param", "upvar"):
                 continue
             if not any(c in allowed for c in e.cells):
+                # only state the properties talk about: the actor's anchored fields.  A field added next to them (a statistics
+                # counter nothing reads back) is not the subscription's delivery state.
+                actor_ty = A.ty("SubscriptionActor")
+                from anchors import FIELDS
+                if any(c[0] == actor_ty and c[1] not in FIELDS["SubscriptionActor"] for c in e.cells) and e.kind == "write":
+                    continue
                 bad.append(e)
         key = "ack-handler:%s" % prog.short(tid)
         if bad:
@@ -425,6 +431,8 @@ def r02_5(prog, out):
         for bb, t in bi.calls(lambda c: prog.qual(b, c.target) == sink_root):
             n += 1
             s = sl.of(bid, t.args[1])
+            if "crate::api::parser::parse_ack_id" not in s.calls and any(r[0] in ("param", "upvar") for r in s.roots):
+                s = sl.of_resolved(bid, t.args[1])      # the ids arrive as a field of a value built by the caller
             key = "ack-caller:%s" % prog.short(bid)
             from common import skipped_only_when_empty
             sk = skipped_only_when_empty(prog, bi, bb, t.args[1])
